@@ -11,6 +11,7 @@ class ScriptJob(Job):
         self._program = None
         self._parser = Parser()
         self._machine = Machine()
+        self._stop_cleared = False
 
     @staticmethod
     def from_file(file_name):
@@ -52,6 +53,13 @@ class ScriptJob(Job):
         return self._machine.get_state()
 
     def execute(self):
+        # Started by an Agent, a left-over stop request has been cleared
+        # before the thread was started and one that arrived since is meant
+        # for this run. Called directly, a request made while nothing was
+        # running is aimed at nothing and must not end this run.
+        if not self._stop_cleared:
+            self._machine.clear_stop()
+        self._stop_cleared = False
         if self._program is not None:
             self._machine.reset()
             self._machine.run(self._program)
@@ -61,3 +69,4 @@ class ScriptJob(Job):
 
     def clear_stop(self):
         self._machine.clear_stop()
+        self._stop_cleared = True
